@@ -704,6 +704,15 @@ class Gen:
             post, rt = ("var", 2), grt
         return ("dimap", pre, g, post), argt, rt
 
+    def dimap_dropping(self, depth):
+        """the targeted dimap root: two arguments, `pre` forwards only the second one, `post` reads the first one"""
+        r = self.rng
+        g, gat, grt = self.static(max(depth - 1, 0), ["S"], "S")
+        argt = ["S", "S"]
+        pre = [("var", 1)]
+        post = ("add", ("var", 2), ("mul", ("proj", 0, ("var", 0)), ("const", r.randint(1, 2))))
+        return ("dimap", pre, g, post), argt, "S"
+
     def contramap(self, depth):
         r = self.rng
         g, gat, grt = self.gf(depth - 1)
